@@ -101,8 +101,12 @@ func NewServer(v *viper.Viper, logger logrus.FieldLogger) *statsd.Server {
 
 	if v.GetBool(gostatsd.ParamLambdaExtensionManualFlush) {
 		s.ForwarderFlushCoordinator = flush.NewFlushCoordinator()
-		// Dynamic headers are disable as they can cause multiple flush notifies per flush
-		v.Set("dynamic-header", []string{})
+		// Dynamic headers are disable as they can cause multiple flush notifies per flush.
+		// The forwarder reads them from the http-transport section; the whole section is set,
+		// because setting a single nested key would shadow the section's other settings.
+		httpTransport := util.GetSubViper(v, "http-transport").AllSettings()
+		httpTransport["dynamic-headers"] = []string{}
+		v.Set("http-transport", httpTransport)
 	}
 
 	return s
